@@ -29,9 +29,10 @@ DEFAULT_EXCLUDED_NAMES = [
 ]
 DEFAULT_EXCLUDE_PATTERNS = [n + "/" for n in DEFAULT_EXCLUDED_NAMES] + ["*.egg-info/"]
 
-ORDINARY_DIRS = ["docs", "src", "sub", "guide", "notes", "a b", "drafts", "archive", "x", "dé"]
+ORDINARY_DIRS = ["docs", "src", "sub", "guide", "notes", "a b", "drafts", "archive", "x", "dé", "re\u0301sume\u0301"]  # (the last one in decomposed form, NFD)
 EXCL_DIRS = DEFAULT_EXCLUDED_NAMES + ["pkg.egg-info", "x.egg-info", "node_modules", "build", ".git"]  # every default, common ones weighted
-FILE_STEMS = ["a", "b", "README", "notes", "index", "x y", "ü", "draft", "CHANGELOG", "[v1]", "q?", "star*", ".hidden", "big"]
+FILE_STEMS = ["a", "b", "README", "notes", "index", "x y", "ü", "draft", "CHANGELOG", "[v1]", "q?", "star*", ".hidden", "big",
+              "cafe\u0301", "\u212bngstro\u0308m", "\uf900"]  # names that are not NFC (decomposed accents, Angstrom sign, a CJK compatibility ideograph): a file system keeps them as they are
 EXTS = [".md", ".md", ".md", ".md", ".mdx", ".txt", ".markdown", ".MD", ""]
 
 
